@@ -77,15 +77,43 @@ def main():
     ap.add_argument("--n", type=int, default=240)
     ap.add_argument("--seed", type=int, default=1)
     ap.add_argument("--repo", default="/repo")
+    ap.add_argument("--focus", action="store_true", help="prefer lines that handle the interval end, callbacks, status, counters and step bounds over numerics")
+    ap.add_argument("--files", default="", help="comma-separated subset of the default file list")
+    ap.add_argument("--exclude", default="", help="comma-separated file:first-last line ranges to leave alone")
+    ap.add_argument("--not-in", default="", help="directory of an earlier campaign: mutants already drawn there are skipped")
     a = ap.parse_args()
+    files = [f for f in FILES if not a.files or f in a.files.split(",")]
+    excl = []
+    for e in filter(None, a.exclude.split(",")):
+        f, r = e.split(":")
+        lo, hi = r.split("-")
+        excl.append((f, int(lo), int(hi)))
+    seen = set()
+    if a.not_in:
+        for d in sorted(os.listdir(a.not_in)):
+            w = os.path.join(a.not_in, d, "what.txt")
+            if os.path.exists(w):
+                ls = open(w).read().splitlines()
+                seen.add((ls[0].split(": ")[0].rsplit(":", 1)[0], ls[1][2:].strip(), (ls[2][2:].strip() if len(ls) > 2 else "")))
     rnd = random.Random(a.seed)
     pool = []
-    for f in FILES:
+    for f in files:
         lines = open(os.path.join(a.repo, f)).read().splitlines(keepends=True)
         for (i, new, what) in candidates(lines):
+            if any(f == ef and lo <= i + 1 <= hi for (ef, lo, hi) in excl):
+                continue
+            if (f, lines[i].strip(), new.strip() if new else "(deleted)") in seen:
+                continue
             if new != lines[i]:
                 pool.append((f, i, new, what))
     weights = [WEIGHT.get(f, 1.0) * OPW.get(what.split()[0], 1.0) for (f, _, _, what) in pool]
+    if a.focus:
+        FOCUS = re.compile(r"\blast\b|xend|x0\b|solout|ControlFlag|status|Status::|steps\.|evals\.|nmax|hmax|hmin|xout|dense|first_step|posneg|direction|t_eval|self\.t\b|self\.y\b|event|terminal|next_idx|tol\b|xold|interpol")
+        cache = {}
+        for k, (f, i, _, _) in enumerate(pool):
+            if f not in cache:
+                cache[f] = open(os.path.join(a.repo, f)).read().splitlines()
+            weights[k] *= 4.0 if FOCUS.search(cache[f][i]) else 0.25
     # weighted sample without replacement
     chosen = []
     idx = list(range(len(pool)))
